@@ -176,6 +176,8 @@ class Generator(Curve, Point):
         u1 = val * s_inverse
         u2 = r * s_inverse
         point = u1 * self + u2 * self.Point(*public_pair)
+        if point == self._infinity:
+            return False
         v = point[0] % order  # type: ignore[operator]
         return v == r
 
